@@ -137,38 +137,16 @@ impl MT101 {
         // Parse optional ordering customer and instructing party (can appear in either order)
         // Field 50 can be either instructing party (C/L) or ordering customer (F/G/H)
         // Check which variant is present and parse accordingly
-        let (instructing_party, ordering_customer) = {
-            let mut instructing = None;
-            let mut ordering = None;
-
-            // Detect which Field 50 variant is present
-            if let Some(variant) = parser.detect_variant_optional("50") {
-                match variant.as_str() {
-                    "C" | "L" => {
-                        // Instructing party variants
-                        instructing =
-                            parser.parse_optional_variant_field::<Field50InstructingParty>("50")?;
-                    }
-                    "F" | "G" | "H" => {
-                        // Ordering customer variants
-                        ordering = parser
-                            .parse_optional_variant_field::<Field50OrderingCustomerFGH>("50")?;
-                    }
-                    _ => {
-                        // Unknown variant - try instructing party first, then ordering customer
-                        if let Ok(Some(field)) =
-                            parser.parse_optional_variant_field::<Field50InstructingParty>("50")
-                        {
-                            instructing = Some(field);
-                        } else {
-                            ordering = parser
-                                .parse_optional_variant_field::<Field50OrderingCustomerFGH>("50")?;
-                        }
-                    }
-                }
-            }
-
-            (instructing, ordering)
+        // Field 50 can occur twice: instructing party (C/L), then ordering customer (F/G/H)
+        let instructing_party = if parser.next_field_has_variant("50", &["C", "L"]) {
+            parser.parse_optional_variant_field::<Field50InstructingParty>("50")?
+        } else {
+            None
+        };
+        let ordering_customer = if parser.next_field_has_variant("50", &["F", "G", "H"]) {
+            parser.parse_optional_variant_field::<Field50OrderingCustomerFGH>("50")?
+        } else {
+            None
         };
 
         let field_52a =
@@ -203,10 +181,16 @@ impl MT101 {
             let field_32b = parser.parse_field::<Field32B>("32B")?;
 
             // Transaction-level optional ordering parties
-            let instructing_party_tx =
-                parser.parse_optional_variant_field::<Field50InstructingParty>("50")?;
-            let ordering_customer_tx =
-                parser.parse_optional_variant_field::<Field50OrderingCustomerFGH>("50")?;
+            let instructing_party_tx = if parser.next_field_has_variant("50", &["C", "L"]) {
+                parser.parse_optional_variant_field::<Field50InstructingParty>("50")?
+            } else {
+                None
+            };
+            let ordering_customer_tx = if parser.next_field_has_variant("50", &["F", "G", "H"]) {
+                parser.parse_optional_variant_field::<Field50OrderingCustomerFGH>("50")?
+            } else {
+                None
+            };
 
             let field_52 =
                 parser.parse_optional_variant_field::<Field52AccountServicingInstitution>("52")?;
